@@ -210,6 +210,7 @@ RULE_POOL = [
     b"path='/a'", b"path='/a/b'", b"path_namespace='/a'", b"path_namespace='/a/b'", b"path_namespace='/'", b"path_namespace='/b'",
     b"sender='com.example.S'", b"sender='com.example.T'", b"sender='org.freedesktop.DBus'",
     b"destination='com.example.X',eavesdrop='true'", b"destination='com.example.Y',eavesdrop='true'", b"destination='com.example.X'",
+    b"destination='org.freedesktop.DBus',eavesdrop='true'", b"destination='org.freedesktop.DBus'",
     b"arg0='x'", b"arg0='xy'", b"arg1='x'", b"arg0=''", b"arg0='/a/b'",
     b"arg0path='/a/'", b"arg0path='/a/b'", b"arg0path=''", b"arg0path='/'", b"arg0path='/a/b/'", b"arg1path='/a/'",
     b"arg0namespace='a.b'", b"arg0namespace='a'", b"arg0namespace='a.bc'",
